@@ -37,10 +37,13 @@ type Result struct {
 	BadLine string // first line that does not match the documented grammar
 }
 
-var full = regexp.MustCompile(`^info depth (\d+) score ((?:cp|mate) -{0,2}\d+) nodes (\d+) time (\d+) hashfull (\d+) pv( [a-h][1-8][a-h][1-8][nbrq]?)*\s?$`)
 var abortLn = regexp.MustCompile(`^info depth (\d+) nodes (\d+)$`)
+var moveTok = regexp.MustCompile(`^[a-h][1-8][a-h][1-8][nbrq]?$`)
 
-// Parse parses search output.
+// Parse parses search output. It is deliberately tolerant: an info line may carry any fields in any
+// order (a maintainer may add nps, seldepth, ...); only the fields the properties talk about are read:
+// depth, nodes and pv (plus score, time, hashfull when present). A line is reported as bad only if it is
+// an info line whose depth / nodes value is not a number or whose pv holds something that is not a move.
 func Parse(raw string) ([]Info, string) {
 	var res []Info
 	bad := ""
@@ -55,20 +58,61 @@ func Parse(raw string) ([]Info, string) {
 			res = append(res, Info{Raw: ln, Abort: true, Depth: d, Nodes: n})
 			continue
 		}
-		m := full.FindStringSubmatch(ln)
-		if m == nil {
+		fs := strings.Fields(ln)
+		if len(fs) == 0 || fs[0] != "info" {
+			continue // not an info line: none of our business here
+		}
+		in := Info{Raw: ln, Depth: -1, Nodes: -1}
+		hasPV := false
+		okLine := true
+		for i := 1; i < len(fs); i++ {
+			num := func() int {
+				if i+1 >= len(fs) {
+					okLine = false
+					return 0
+				}
+				v, err := strconv.Atoi(fs[i+1])
+				if err != nil {
+					okLine = false
+				}
+				i++
+				return v
+			}
+			switch fs[i] {
+			case "depth":
+				in.Depth = num()
+			case "nodes":
+				in.Nodes = num()
+			case "time":
+				in.Time = num()
+			case "hashfull":
+				in.HashFull = num()
+			case "score":
+				if i+2 < len(fs) {
+					in.Score = fs[i+1] + " " + fs[i+2]
+					i += 2
+				}
+			case "string":
+				i = len(fs)
+			case "pv":
+				hasPV = true
+				for _, t := range fs[i+1:] {
+					if !moveTok.MatchString(t) {
+						okLine = false
+					}
+					in.PV = append(in.PV, t)
+				}
+				i = len(fs)
+			}
+		}
+		if !okLine {
 			if bad == "" {
 				bad = ln
 			}
 			continue
 		}
-		in := Info{Raw: ln, Score: m[2]}
-		in.Depth, _ = strconv.Atoi(m[1])
-		in.Nodes, _ = strconv.Atoi(m[3])
-		in.Time, _ = strconv.Atoi(m[4])
-		in.HashFull, _ = strconv.Atoi(m[5])
-		if i := strings.Index(ln, " pv"); i >= 0 {
-			in.PV = strings.Fields(ln[i+3:])
+		if !hasPV || in.Depth < 0 || in.Nodes < 0 {
+			continue // an info line without the fields the properties are about
 		}
 		res = append(res, in)
 	}
